@@ -274,7 +274,7 @@ Section ModelCase.
 
   (* ---- the walk ---------------------------------------------------------------------------------------------------------------- *)
 
-  Lemma walk_model sizes : forall es pos sr sp floor sfin rs,
+  Lemma walk_model sizes : forall es pos sr sp floor sfin rs done,
       let i := N.of_nat pos + 1 in
       let cs := to_fcmds i es in
       Forall good_cmd cs ->
@@ -283,9 +283,9 @@ Section ModelCase.
       singles sr cs = (sfin, BRes rs) ->
       Forall (fun s => 1 <= s) sizes ->
       fold_right (fun s acc => (N.to_nat s + acc)%nat) 0%nat sizes = length es ->
-      walk (WSt pos (dg sr) floor) (ref_run sr cs) es sizes (part_run sp (split_sizes sizes cs)) = 0.
+      walk (WSt pos (dg sr) floor) done (ref_run sr cs) es sizes (part_run sp (split_sizes sizes cs)) = 0.
   Proof.
-    induction sizes as [|s sizes IH]; intros es pos sr sp floor sfin rs i cs Hg E Hfl Hs Hsz Hsum.
+    induction sizes as [|s sizes IH]; intros es pos sr sp floor sfin rs done i cs Hg E Hfl Hs Hsz Hsum.
     - cbn [split_sizes part_run walk]. reflexivity.
     - inversion Hsz as [|? ? Hs1 Hszr]; subst. cbn [fold_right] in Hsum.
       set (len := N.to_nat s) in *. assert (Hlen1 : (1 <= len)%nat) by (subst len; lia).
@@ -330,7 +330,7 @@ Section ModelCase.
       rewrite Hskip, Hrest.
       replace (dg sb) with (dg sb) by reflexivity.
       rewrite Hrest in Hgr, Hsr.
-      apply (IH (skipn len es) (pos + len)%nat sb sp' floor' sfin rr);
+      apply (IH (skipn len es) (pos + len)%nat sb sp' floor' sfin rr (done ++ firstn len es));
         [exact Hgr|exact E'|rewrite <- Hbl; exact Hfl'|exact Hsr|exact Hszr|rewrite skipn_length; lia].
   Qed.
 
@@ -408,10 +408,10 @@ Section ModelCase.
     rewrite Hr, Hc. cbn [andb negb]. subst c. cbn [model_case c_snaps forallb negb c_parts c_ref c_log c_d0].
     rewrite map_map. cbn [p_sizes p_obs].
     assert (Hall : forall sz, In sz szs ->
-               walk (WSt 0 (dg store_empty) 0) (ref_run store_empty (to_fcmds 1 es)) es sz
+               walk (WSt 0 (dg store_empty) 0) [] (ref_run store_empty (to_fcmds 1 es)) es sz
                     (part_run store_empty (split_sizes sz (to_fcmds 1 es))) = 0).
     { intros sz Hin. rewrite Forall_forall in Hszs. destruct (Hszs sz Hin) as (H1 & H2).
-      apply (walk_model sz es 0 store_empty store_empty 0 sfin rs); auto.
+      apply (walk_model sz es 0 store_empty store_empty 0 sfin rs []); auto.
       apply store_eqv_refl. }
     clear Hszs Hr Hc. induction szs as [|sz szs IHs]; [reflexivity|].
     cbn [map max_code]. rewrite (Hall sz (or_introl eq_refl)).
